@@ -13,6 +13,7 @@ CONSTANTS
   ClassSet = {"bnd", "field", "name", "id", "idfull", "data", "datafull"}
   AnswerSet = {"ok"}
   TailSet = {"good"}
+  RetrySet = {"none"}
   FixScanner = FALSE
   FixCursor = TRUE
   Fix5xx = TRUE
